@@ -277,7 +277,9 @@ def main():
             for im in it["module"]["imports"]:
                 im["name"], im["realname"] = im["logname"], im["name"]
     # optimising builds of both compilers, and one with every function in a file of its own (no inlining across them)
-    builds = [{"name": "gcc-O1", "cc": "gcc", "cflags": ("-O1",)}, {"name": "gcc-O2-f1", "cc": "gcc", "cflags": ("-O2",), "w2c2_opts": ("-m", "-f", "1")}]
+    builds = [{"name": "gcc-O1", "cc": "gcc", "cflags": ("-O1",)}, {"name": "gcc-O2-f1", "cc": "gcc", "cflags": ("-O2",), "w2c2_opts": ("-m", "-f", "1")},
+              # a C library that is as unhelpful as the standard allows (see machine.HOSTILE_LIBC)
+              machine.HOSTILE_LIBC]
     if tier != "quick":
         builds.append({"name": "clang-O1", "cc": "clang", "cflags": ("-O1",)})
     # the binary must carry the real names: encode with realname
